@@ -14,6 +14,10 @@ ALL_FEATURES = {"print", "glue", "tags", "icond", "iseq", "set", "temp", "block_
                 "done", "functions", "choice_tags", "stitches", "bool_vars", "str_vars"}
 
 
+# a logic line (~) that calls a function ends the line of whatever the function printed
+NL = {"k": "nl"}
+
+
 def chars(s):
     return [ord(c) for c in s]
 
@@ -39,6 +43,8 @@ class Gen:
         self.temps = []
         self.depth = 0
         self.after_choice = False
+        self.funcs = []           # functions that may be called from the code being generated: dict(name, params)
+        self.in_choice_text = False
 
     # ------------------------------------------------------------------ helpers
     def has(self, f):
@@ -112,6 +118,28 @@ class Gen:
     def knot_names(self):
         return ["k%d" % i for i in range(self.nknots)]
 
+    def call(self):
+        """(f, args ast, text) of a call of one of the callable functions"""
+        f = self.r.choice(self.funcs)
+        args, texts = [], []
+        for _ in f["params"]:
+            a, t = self.expr(1)
+            args.append(a)
+            texts.append(t)
+        return f["name"], args, "%s(%s)" % (f["name"], ", ".join(texts))
+
+    def call_stmt(self, mode, x=""):
+        """a call statement; with some probability the call is the left operand of a larger expression"""
+        f, args, text = self.call()
+        st = {"k": "call", "f": f, "args": args, "mode": mode, "x": x, "e": {"k": "void"}}
+        if mode in ("print", "set", "temp") and self.p(0.4):
+            op = self.r.choice(["+", "-", "*"])
+            b, tb = self.expr(1)
+            st["mode"] = mode + "expr"
+            st["e"] = {"k": "b", "op": op, "a": {"k": "var", "n": "$ret"}, "b": b}
+            text = "(%s %s %s)" % (text, op, tb)
+        return st, text
+
     # ------------------------------------------------------------------ inline content
     def segments(self, allow_glue=True, allow_tags=True, rich=True, lo=1, hi=4):
         """a line's content: list of ("lit", text) / ("stmt", ast, text); never starts or ends with a space"""
@@ -124,6 +152,9 @@ class Gen:
             k = r.random()
             if not rich or k < 0.45 or (i == 0 and rich == "print"):
                 segs.append(("lit", self.words(1, 2)))
+            elif k < 0.52 and rich is True and self.funcs and self.has("functions"):
+                st, t = self.call_stmt("print")
+                segs.append(("stmt", st, "{%s}" % t))
             elif (k < 0.65 or rich == "print") and self.has("print"):
                 e, t = self.expr()
                 segs.append(("stmt", {"k": "p", "e": e}, "{%s}" % t))
@@ -185,6 +216,20 @@ class Gen:
     def logic(self, ind):
         r = self.r
         ints = [g["n"] for g in self.globals if g["v"]["t"] == "int"]
+        if self.funcs and self.has("functions") and self.p(0.35):
+            k = r.random()
+            if k < 0.3:
+                st, t = self.call_stmt("drop")
+                return [st, NL], ["%s~ %s" % (ind, t)]
+            if k < 0.6 and self.has("temp"):
+                name = self.fresh("t")
+                st, t = self.call_stmt("temp", name)
+                self.temps.append(name)
+                return [st, NL], ["%s~ temp %s = %s" % (ind, name, t)]
+            if ints:
+                x = r.choice(ints)
+                st, t = self.call_stmt("set", x)
+                return [st, NL], ["%s~ %s = %s" % (ind, x, t)]
         if self.has("temp") and self.p(0.3):
             e, t = self.expr()
             name = self.fresh("t")
@@ -279,7 +324,10 @@ class Gen:
                 s, l = self.block_seq(ind)
             elif k < 0.92 and self.has("tunnels") and self.tunnel_names():
                 t = self.r.choice(self.tunnel_names())
-                s, l = [{"k": "tun", "t": t}], ["%s-> %s ->" % (ind, t)]
+                # now and then the same tunnel several times in a row: with a tunnel that prints nothing, several visits
+                # of one container fall into a single look-ahead of the engine
+                reps = self.r.randint(2, 3) if self.p(0.35) else 1
+                s, l = [{"k": "tun", "t": t}] * reps, ["%s-> %s ->" % (ind, t)] * reps
             elif k < 0.97 and self.has("threads") and self.thread_names() and level == 1:
                 t = self.r.choice(self.thread_names())
                 s, l = [{"k": "thr", "t": t}], ["%s<- %s" % (ind, t)]
@@ -398,6 +446,14 @@ class Gen:
     def knot_body(self, kind):
         r = self.r
         n = max(1, int(r.randint(1, 4) * self.size))
+        if kind == "tunnel" and self.p(0.5):
+            # a quiet tunnel: logic only
+            stmts, lines = [], []
+            for _ in range(r.randint(1, 2)):
+                s_, l_ = self.logic("")
+                stmts += s_
+                lines += l_
+            return stmts + [{"k": "tret"}], lines + ["->->"]
         stmts, lines = self.flow_items("", n, 1)
 
         def ending(ind):
@@ -430,6 +486,35 @@ class Gen:
             lines += el
         return stmts, lines
 
+    def func_body(self, params):
+        """lines, logic, conditionals with early returns; ends with a return of a value"""
+        r = self.r
+        stmts, lines = [], []
+        for _ in range(r.randint(0, 3)):
+            k = r.random()
+            if k < 0.45:
+                s, l = self.line("")
+            elif k < 0.75 and self.has("set"):
+                s, l = self.logic("")
+            elif self.has("block_if"):
+                c, tc = self.expr(boolean=True)
+                saved = list(self.temps)
+                bs, bl = self.simple_block("    ", r.randint(1, 2))
+                if self.p(0.5):
+                    e, t = self.expr()
+                    bs.append({"k": "ret", "e": e})
+                    bl.append("    ~ return %s" % t)
+                self.temps = saved
+                s, l = [{"k": "if", "br": [{"c": c, "b": self.body(bs)}]}], ["{", "- %s:" % tc] + bl + ["}"]
+            else:
+                s, l = self.line("")
+            stmts += s
+            lines += l
+        e, t = self.expr()
+        stmts.append({"k": "ret", "e": e})
+        lines.append("~ return %s" % t)
+        return stmts, lines
+
     # ------------------------------------------------------------------ program
     def program(self):
         r = self.r
@@ -451,6 +536,21 @@ class Gen:
         self.cur = ""
         root = self.body([{"k": "div", "t": "k0"}])
         src.append("-> k0")
+        fsrc = []
+        if self.has("functions"):
+            for i in range(r.randint(1, 3)):
+                name = "f%d" % i
+                params = ["a%d_%d" % (i, j) for j in range(r.randint(0, 2))]
+                self.cur = name
+                self.temps = list(params)
+                self.after_choice = False
+                b = self.body()
+                stmts, lines = self.func_body(params)      # may call the functions generated before it
+                self.bodies[b - 1] = stmts
+                self.knots[name] = {"body": b, "kind": "function", "params": params}
+                fsrc.append("== function %s(%s) ==" % (name, ", ".join(params)))
+                fsrc += lines
+                self.funcs.append({"name": name, "params": params})
         for n in names + [n for n, _ in extra]:
             self.cur = n
             self.temps = []
@@ -458,9 +558,10 @@ class Gen:
             b = self.body()                     # reserve the number: the knot's body comes first
             stmts, lines = self.knot_body(self.kinds[n])
             self.bodies[b - 1] = stmts
-            self.knots[n] = {"body": b, "kind": self.kinds[n]}
+            self.knots[n] = {"body": b, "kind": self.kinds[n], "params": []}
             src.append("== %s ==" % n)
             src += lines
+        src += fsrc
         prog = {"bodies": self.bodies, "knots": self.knots, "globals": self.globals, "root": root, "owner": self.owner}
         return prog, "\n".join(src) + "\n"
 
